@@ -314,6 +314,17 @@ def cases(tier='quick', families=None):
         out.append(Case('S5', 'rec_setof_ext', 'EXPLICIT',
                         Type('SEQUENCE', root=[Member('v', tagged(Type('INTEGER'), (2, 0, None)))], ext=True,
                              adds=[Member('kids', tagged(Type('SET OF', elem=Type('REF', ref='@')), (2, 1, None)), optional=True)])))
+        # untagged CHOICEs nested in untagged CHOICEs (the tag of the value is only known at run time): alone, and as a component of
+        # a SET whose DER order then depends on the selected alternative
+        def _uch3():
+            return Type('CHOICE', root=[Member('a', Type('CHOICE', root=[Member('b', Type('CHOICE', root=[Member('x', Type('INTEGER')), Member('y', Type('BOOLEAN'))])),
+                                                                          Member('n', Type('NULL'))])), Member('r', Type('REAL'))])
+        out.append(Case('S5', 'uchoice3', 'EXPLICIT', _uch3()))
+        out.append(Case('S5', 'set_uchoice2', 'EXPLICIT', Type('SET', root=[
+            Member('c', Type('CHOICE', root=[Member('i', Type('CHOICE', root=[Member('x', tagged(Type('INTEGER'), (2, 3, None))), Member('y', tagged(Type('BOOLEAN'), (2, 1, None)))])),
+                                             Member('z', tagged(Type('NULL'), (2, 5, None)))])),
+            Member('s', tagged(Type('OCTET STRING'), (2, 0, None))), Member('t', tagged(Type('BOOLEAN'), (2, 4, None)))])))
+        out.append(Case('S5', 'seq_uchoice3', 'EXPLICIT', Type('SEQUENCE', root=[Member('f', Type('OCTET STRING')), Member('u', _uch3())])))
     # ---- S6: wire-boundary shapes
     if fam('S6'):
         tagnums = [30, 31, 127, 128, 16383, 16384, (1 << 21) - 1, 1 << 28, (1 << 30) - 1]
